@@ -22,10 +22,11 @@ type Menu struct {
 	StopEarly   bool // stop parsing early and append more data
 	ShrinkDev   bool // skip Shrink, Shrink twice, Shrink while unparsed data is buffered
 	Reset       bool // Reset(nil) and Reset(data) with several capacities
+	Restart     bool // Reset(data) that restarts the stream from the beginning of the input (1 byte with 7 spare bytes, or a full buffer without spare capacity)
 }
 
 // FullMenu offers every deviation.
-var FullMenu = Menu{true, true, true, true, true, true, true}
+var FullMenu = Menu{true, true, true, true, true, true, true, false}
 
 // PCase identifies one execution of the parser-history driver.
 type PCase struct {
@@ -477,6 +478,10 @@ outer:
 				add(8) // cap == len+7
 				add(9) // cap == len+64
 			}
+			if h.Menu.Restart {
+				add(10) // Reset(input[:1]) with 7 spare bytes: the stream starts again
+				add(11) // Reset(input[:min(B,len)]) without spare capacity: the stream starts again
+			}
 			op := alts[c.Choose(na)]
 			switch {
 			case op <= 3:
@@ -539,6 +544,18 @@ outer:
 				if orc.Op != nil {
 					orc.Op(h, "readfrom")
 				}
+			case op >= 10:
+				q := in[:1]
+				extra := 7
+				if op == 11 {
+					q, extra = in[:min(B, len(in))], 0
+				}
+				if !reset(q, extra) {
+					h.St.Pruned++
+					break outer
+				}
+				fed = len(q)
+				progress = true
 			default:
 				q := rem
 				if len(q) > B {
